@@ -140,12 +140,13 @@ sexp sexp_bit_ior (sexp ctx, sexp self, sexp_sint_t n, sexp x, sexp y) {
       if (sexp_bignum_sign(res) < 0)
         sexp_set_twos_complement(res);
     } else if (sexp_bignump(y) || sexp_fixnump(y)) {
+      /* one extra word, so the top word of the result is pure sign extension */
       if (sexp_fixnump(y) || sexp_bignum_length(x) >= sexp_bignum_length(y)) {
-        res = sexp_copy_bignum(ctx, NULL, x, 0);
+        res = sexp_copy_bignum(ctx, NULL, x, sexp_bignum_length(x)+1);
         len = sexp_bignum_length(res);
         tmp = sexp_fixnump(y) ? sexp_fixnum_to_twos_complement(ctx, y, len) : sexp_twos_complement(ctx, y);
       } else {
-        res = sexp_copy_bignum(ctx, NULL, y, 0);
+        res = sexp_copy_bignum(ctx, NULL, y, sexp_bignum_length(y)+1);
         len = sexp_bignum_length(res);
         tmp = sexp_twos_complement(ctx, x);
       }
